@@ -116,6 +116,25 @@ def init (cap staleCreate staleRead : Nat) : St :=
   { cap := cap, free := cap, staleCreate := staleCreate, staleRead := staleRead, ds := [],
     lock := false, count := 0, segs := [], files := [], jobs := [], nextGen := 0, nextJob := 0 }
 
+/-- `Manager.__init__`: the capacity the store works with. `configured` is the `capacity` argument (`None` / 0 = not
+configured), `avail` what `get_capacity()` reports for /dev/shm: `if not capacity: capacity = default_capacity elif capacity >
+default_capacity: capacity = default_capacity`. -/
+def configCapacity (configured : Option Nat) (avail : Nat) : Nat :=
+  match configured with
+  | none => avail
+  | some c => if c = 0 then avail else if c > avail then avail else c
+
+/-- `Executor.__init__`: the capacity argument given to the shm server process, `shm_vol_gb * (1024**3) if shm_vol_gb else None` -/
+def execCapacity (shmVolGb : Option Nat) : Option Nat :=
+  match shmVolGb with
+  | none => none
+  | some g => if g = 0 then none else some (g * 1024 ^ 3)
+
+/-- `server.entrypoint(port, capacity, …)` → `LocalServer.__init__` → `Manager(shm_pref, capacity)`: the configured value is
+handed through unchanged, the Manager trims it to what /dev/shm offers -/
+def boot (configured : Option Nat) (avail staleCreate staleRead : Nat) : St :=
+  init (configCapacity configured avail) staleCreate staleRead
+
 /-- statuses whose size is promised out of shared memory -/
 def Status.resident : Status → Bool
   | .onDisk => false
